@@ -72,7 +72,7 @@ def snapshot(db):
     out = [len(db)]
     for name, cls, d in sections():
         try:
-            out.append(tuple((id(r), r.line_number, r.raw_signature) for r in db.iter_values(cls, d)))
+            out.append(tuple(map(id, db.iter_values(cls, d))))
         except p["E"].DatabaseError:
             out.append(None)
     return tuple(out)
@@ -246,7 +246,11 @@ def do_getrandom(db, a):
     st = random.getstate()
     random.seed(hash((a[1], a[2], a[3])) & 0xffffffff)
     try:
-        for _ in range(150):
+        try:
+            nsec = len(list(db.iter_values(cls, d)))
+        except p["E"].DatabaseError:
+            nsec = 0
+        for _ in range(max(120, 40 * nsec)):
             r = db.get_random(label, cls, d)
             seen.add(r.line_number)
             if r.label.dump() != label or not isinstance(r, cls):
@@ -256,6 +260,30 @@ def do_getrandom(db, a):
     if bad:
         return f"cands-with-wrong-label-or-kind={sorted(set(bad))}"
     return "cands=[" + ",".join(str(x) for x in sorted(seen)) + "]"
+
+
+def do_impmtu_label(db, a):
+    """impersonate_mtu(raw_label=...): the set of MTUs realised over many draws"""
+    p = P()
+    from scapy.layers.inet import TCP
+    label = bytes.fromhex(a[3]).decode("latin-1")
+    raw = bytes.fromhex(a[2])
+    try:
+        n = len(list(db.iter_values(p["MTURecord"])))
+    except p["E"].DatabaseError:
+        n = 0
+    seen = set()
+    st = random.getstate()
+    random.seed(hash((a[2], a[3])) & 0xffffffff)
+    try:
+        for _ in range(max(120, 40 * n)):
+            pkt = scapy_from(a[1], raw)
+            out = p["I"].impersonate_mtu(pkt, raw_label=label, database=db)
+            mss = dict(out[TCP].options)["MSS"]
+            seen.add(mss + (40 if a[1] == "4" else 60))
+    finally:
+        random.setstate(st)
+    return "mtus=[" + ",".join(str(x) for x in sorted(seen)) + "]"
 
 
 def do_imp(db, a):
@@ -299,6 +327,8 @@ def hist_step(db, step, watch):
             return do_getrandom(db, a)
         if k == "I":
             return do_imp(db, a + [""] * 4)
+        if k == "J":
+            return do_impmtu_label(db, a)
         return "?step"
     except impl.Hang:
         raise
